@@ -29,19 +29,23 @@ Record hwriter := mkWr {
   wsink : sinkst;
   (* ghost *)
   wregs : list region;         (* windows since the last successful Flush, newest first *)
-  wnstale : nat                (* number of Malloc regions handed out before the last successful Flush *)
+  wnstale : nat;               (* number of Malloc regions handed out before the last successful Flush *)
+  wlent : list nat;            (* the caller's block lent for writing (NewBytesWriter target), if any *)
+  wgiven : list nat            (* caller blocks the writer may only read: WriteBinary payloads, flushed BytesWriter buffers *)
 }.
 
 Definition wlen (st : hwriter) : N := match wbuf st with Some s => sln s | None => 0 end.
 Definition wcap (st : hwriter) : N := match wbuf st with Some s => scp s | None => 0 end.
 
 Definition wset_buf (st : hwriter) (b : option bslice) (pd : list bslice) : hwriter :=
-  mkWr b pd (werr st) (wnocache st) (wstats st) (wsidx st) (wsink st) (wregs st) (wnstale st).
+  mkWr b pd (werr st) (wnocache st) (wstats st) (wsidx st) (wsink st) (wregs st) (wnstale st) (wlent st) (wgiven st).
 Definition wset_regs (st : hwriter) (rg : list region) : hwriter :=
-  mkWr (wbuf st) (wpend st) (werr st) (wnocache st) (wstats st) (wsidx st) (wsink st) rg (wnstale st).
+  mkWr (wbuf st) (wpend st) (werr st) (wnocache st) (wstats st) (wsidx st) (wsink st) rg (wnstale st) (wlent st) (wgiven st).
+Definition wadd_given (st : hwriter) (b : nat) : hwriter :=
+  mkWr (wbuf st) (wpend st) (werr st) (wnocache st) (wstats st) (wsidx st) (wsink st) (wregs st) (wnstale st) (wlent st) (b :: wgiven st).
 
 Definition new_writer (failk : N) : hwriter :=
-  mkWr None [] None false (repeat 0 (N.to_nat nbuckets)) 0 (mkSink false [] 0 failk None) [] 0.
+  mkWr None [] None false (repeat 0 (N.to_nat nbuckets)) 0 (mkSink false [] 0 failk None) [] 0 [] [].
 
 (* NewBytesWriter(&t): t = block[|pre| : |pre|+|data| : cap]; a target without capacity is not kept *)
 Definition new_bytes_writer (e : env) (isnil : bool) (pre data spare : bytes) : hwriter * env :=
@@ -49,12 +53,12 @@ Definition new_bytes_writer (e : env) (isnil : bool) (pre data spare : bytes) : 
     let '(e1, b) := e_lend e (pre ++ data ++ spare) false in
     let s := mkS b (len pre) (len data) (len data + len spare) in
     (mkWr (Some s) [] None true (repeat 0 (N.to_nat nbuckets)) 0 (mkSink true [] 0 0 (Some s))
-          [mkReg b (len pre) (len data) 0 data false] 0, e1)
+          [mkReg b (len pre) (len data) 0 data false] 0 [b] [], e1)
   else
     (* a non-nil target without capacity stays in w.buf (len 0, cap 0, no memory behind it) until the
        first acquire replaces it; Flush then still calls the sink *)
     (mkWr (if isnil then None else Some (mkS O 0 0 0)) [] None true (repeat 0 (N.to_nat nbuckets)) 0
-          (mkSink true [] 0 0 None) [] 0, e).
+          (mkSink true [] 0 0 None) [] 0 [] [], e).
 
 Definition w_newbuf (e : env) (nc : bool) (c : N) : env * nat * N :=
   (* disableCache: dirtmake.Bytes(_, c), capacity exactly c ; else mcache.Malloc, capacity pow2ceil c *)
@@ -121,8 +125,10 @@ Definition h_malloc (st : hwriter) (e : env) (n : Z) : hwriter * env * wobs :=
 
 (* WriteBinary(bs): bs is a caller block (len |bs|, [extra] bytes of spare capacity) lent read-only *)
 Definition h_writebinary (st : hwriter) (e : env) (bs : bytes) (extra : N) : hwriter * env * wobs :=
-  let '(e0, pb) :=
-    if 0 <? len bs + extra then e_lend e (bs ++ repeat 0 (N.to_nat extra)) true else (e, O) in
+  let '(e0, pb, st) :=
+    if 0 <? len bs + extra
+    then let '(e0, pb) := e_lend e (bs ++ repeat 0 (N.to_nat extra)) true in (e0, pb, wadd_given st pb)
+    else (e, O, st) in
   match werr st with
   | Some x => (st, e0, mkO x (wlen st) None None)
   | None =>
@@ -180,7 +186,7 @@ Definition h_flush (st : hwriter) (e : env) : hwriter * env * wobs :=
         let '(k', er) := sink_write (wsink st) c content in
         match er with
         | Some x =>
-          (mkWr (wbuf st) (wpend st) (Some x) (wnocache st) (wstats st) (wsidx st) k' (wregs st) (wnstale st),
+          (mkWr (wbuf st) (wpend st) (Some x) (wnocache st) (wstats st) (wsidx st) k' (wregs st) (wnstale st) (wlent st) (wgiven st),
            e3, mkO x (wlen st) None None)
         | None =>
           let '(bk, bi) := stat_update (wstats st) (wsidx st) (scp c) in
@@ -189,7 +195,8 @@ Definition h_flush (st : hwriter) (e : env) : hwriter * env * wobs :=
               (* nothing is freed; the flushed slice now belongs to the caller, the rest is garbage *)
               drop_all (if 0 <? scp c then emit e3 (EvGive (sblk c)) else e3) (wpend st)
             else free_all (if 0 <? scp c then e_free e3 c else e3) (wpend st) in
-          (mkWr None [] None (wnocache st) bk bi k' [] (wnstale st + count_open (wregs st)),
+          (mkWr None [] None (wnocache st) bk bi k' [] (wnstale st + count_open (wregs st)) (wlent st)
+                (if wnocache st && (0 <? scp c) && negb (memb (sblk c) (wlent st)) then sblk c :: wgiven st else wgiven st),
            e4, mkO E_NONE 0 (Some content) None)
         end
       end
